@@ -157,6 +157,9 @@ func c14Scripted(ctx *Ctx, i int, rng *rand.Rand) {
 	}
 	codec := newManualCodec()
 	r := &jsonrpc2.Remote{Codec: codec, Client: &jsonrpc2.Client{}, Server: &jsonrpc2.Server{}, PendingLimit: limit, PendingDiscard: discard}
+	if rng.Intn(2) == 0 {
+		r.Client = nil // as the agent's websocket path builds it: the Remote supplies its own request-id source
+	}
 	go r.Serve()
 	defer codec.Close()
 	m := &mirror{limit: limit, discard: discard, pending: map[int]*mirrorEntry{}, bufs: map[[2]int]int{}, phase: map[int]string{}, wgen: map[int]int{}}
@@ -518,6 +521,9 @@ func c14Free(ctx *Ctx, i int, rng *rand.Rand, limit, discard int) {
 	sb.Register("", &BounceService{&rb, &handled, &wrong, &tokens})
 	ra = &jsonrpc2.Remote{Codec: pipeCodec{rd: ba, wr: ab}, Client: &jsonrpc2.Client{}, Server: sa, PendingLimit: limit, PendingDiscard: discard}
 	rb = &jsonrpc2.Remote{Codec: pipeCodec{rd: ab, wr: ba}, Client: &jsonrpc2.Client{}, Server: sb, PendingLimit: limit, PendingDiscard: discard}
+	if i%2 == 1 {
+		ra.Client, rb.Client = nil, nil
+	}
 	go ra.Serve()
 	go rb.Serve()
 	K := 4 + rng.Intn(13)
@@ -619,9 +625,52 @@ func c14Free(ctx *Ctx, i int, rng *rand.Rand, limit, discard int) {
 	ctx.Emit(Case{I: i, Kind: kind, Desc: map[string]interface{}{"callers_per_side": K, "limit": limit, "discard": discard, "handled": atomic.LoadInt64(&handled), "pending_left": pa + pb, "cancelled": cancelled}, Monitor: mon})
 }
 
+// c14FirstCalls: the first two calls on a Remote that was given no request-id source start at the
+// same moment (the agent's websocket path builds its Remote that way, and an agent's keep-alive
+// and a forced update may well be its first two calls): they must carry different request ids,
+// or each may be handed the other's reply.
+func c14FirstCalls(ctx *Ctx, i int, rounds int) {
+	var mon []string
+	collisions := 0
+	for r := 0; r < rounds && collisions == 0; r++ {
+		codec := newManualCodec()
+		rem := &jsonrpc2.Remote{Codec: codec, Server: &jsonrpc2.Server{}}
+		go rem.Serve()
+		start := make(chan struct{})
+		var wg sync.WaitGroup
+		cctx, cancel := context.WithCancel(context.Background())
+		for g := 0; g < 2; g++ {
+			wg.Add(1)
+			go func() {
+				defer wg.Done()
+				<-start
+				var out int
+				rem.Call(cctx, &out, "probe")
+			}()
+		}
+		close(start)
+		for t := 0; t < 4000 && codec.written() < 2; t++ {
+			time.Sleep(25 * time.Microsecond)
+		}
+		codec.mu.Lock()
+		if len(codec.out) >= 2 && string(codec.out[0].ID) == string(codec.out[1].ID) {
+			collisions++
+			mon = append(mon, fmt.Sprintf("c14-request-id-reused: round %d: the first two concurrent calls on a Remote without a Client both went out with request id %s: the replies cannot be told apart", r, string(codec.out[0].ID)))
+		}
+		codec.mu.Unlock()
+		cancel()
+		wg.Wait()
+		codec.Close()
+	}
+	ctx.Emit(Case{I: i, Kind: "first-calls", Desc: map[string]interface{}{"rounds": rounds}, Monitor: mon})
+}
+
 func runC14(ctx *Ctx) {
 	n := ctx.N(150, 3000)
 	forEachCase(ctx, n, func(i int, rng *rand.Rand) { c14Scripted(ctx, i, rng) })
+	if ctx.Want(n + 1000) {
+		c14FirstCalls(ctx, n+1000, ctx.N(3000, 60000))
+	}
 	m := ctx.N(10, 120)
 	for c := 0; c < m; c++ {
 		i := n + c
